@@ -11,7 +11,7 @@ d=seeded/$id
 [ -f $src/patch.diff ] || src=$PWD/seeded/$id   # re-run of a stored change
 [ -f $src/patch.diff ] || { echo "$id: no patch"; exit 2; }
 [ -d $wt ] || git -C /repo worktree add -q $wt HEAD
-if grep -q 'semiring.py\|parse/earley' $src/patch.diff; then echo "$id: touches translated sources, use validate_mutant.sh"; exit 2; fi
+# (whether the translator output changes is decided by validate_auto.sh)
 mkdir -p $d $out; [ "$src" = "$PWD/$d" ] || { cp $src/patch.diff $src/demo.py $d/; cp $src/notes.md $d/ 2>/dev/null; }
 [ -d /tmp/mut/_clean ] || git -C /repo worktree add -q /tmp/mut/_clean HEAD
 git -C $wt checkout -q -- . && git -C $wt apply $PWD/$d/patch.diff || { echo "$id: patch does not apply"; exit 2; }
